@@ -1059,8 +1059,9 @@ fn verify_rrsig_with_keys(
         }
     }
 
-    if all_insecure.unwrap_or(false) {
-        // inherit Insecure state
+    // inherit Insecure state, but only from a signer zone that encloses the RRset: the DNSKEYs of a
+    // provably insecure zone say nothing about the records of an unrelated (possibly signed) zone
+    if all_insecure.unwrap_or(false) && rrsig.data().input().signer_name.zone_of(key.name()) {
         Some((Proof::Insecure, None))
     } else {
         None
